@@ -23,14 +23,18 @@ def run(ctx):
             two_heavy = sum(ch in "QRqr" for ch in f.split()[0]) >= 2      # the Coq evaluation of depth 4 is too slow there
             seqs = [["d3"], ["d2", "d3"], ["d3", "d3"]] + ([["d4", "d3"]] if npieces(f) <= 4 and not two_heavy else [])
             if two_heavy and npieces(f) <= 4:
-                seqs = [["d3"], ["d2", "d3"]]
+                seqs = [["d3"]]
         else:
             seqs = SEQS if npieces(f) <= 6 else SEQS[:4]
         for sq in seqs:
             cases.append({"group": "mate", "fen": f, "moves": [], "specs": sq})
     seqs = SEQS
+    import time as _t
+    _t0 = _t.time()
+    timing = {}
     eng = S.run_engine(cases)
     mod, lg = S.run_model(cases, timeout=2400)
+    timing["model_on_corpus_s"] = round(_t.time() - _t0, 1); _t0 = _t.time()
     if mod is None:
         rp = C.write_replay(prop, {"broken": "search correspondence on mate positions (model evaluation)", "log": lg[-2000:]})
         violations.append({"replay": rp, "no_input": True})
@@ -49,6 +53,7 @@ def run(ctx):
     # mate oracle evaluated on the model
     items = ["mate_facts %s []" % B.coq_str(f) for f in fens]
     vals, lg = C.coq_eval_items("c12o", S.HEADER, items, lambda l: l, nshards=C.NPROC, timeout=1500)
+    timing["mate_facts_coq_s"] = round(_t.time() - _t0, 1); _t0 = _t.time()
     stats = {"mate_in_one_positions": 0, "mate_in_two_positions": 0, "avoidable_threat_positions": 0, "searches_judged": 0,
              "keeps_mate_queries": 0}
     if vals is None:
@@ -102,19 +107,24 @@ def run(ctx):
                                                "replay_cmd": "printf '%s |  | %s\\n' | %s verif search" % (c["fen"], ";".join(c["specs"]), C.ENGINE)})
                     violations.append({"replay": rp})
                     break
+    timing["keeps_and_judging_s"] = round(_t.time() - _t0, 1); _t0 = _t.time()
     # ---- hunt (engine alone, cache ON): random sparse positions searched in sequences sharing the cache; every chosen move judged by a
     # mate oracle written in the driver over the engine's board API; that oracle is itself compared with the Coq oracle (mate_facts) on
     # the corpus and on a sample of the hunted positions each run
     import json
     import positions as P
     from concurrent.futures import ThreadPoolExecutor
-    nh = 12000 if ctx["tier"] == "quick" else 400000
+    nh = 9000 if ctx["tier"] == "quick" else 400000
     hfens = P.mate_hunt_positions(ctx["seed"], nh)
-    small = [f for f in hfens if sum(ch.isalpha() for ch in f.split()[0]) <= 4]
-    sample = fens + small[:25 if ctx["tier"] == "quick" else 300]
+    # (the Coq oracle is slow: a queen and a rook on the board cost minutes; quick: only king + one man v king beyond the corpus)
+    small = [f for f in hfens if sum(ch.isalpha() for ch in f.split()[0]) <= (3 if ctx["tier"] == "quick" else 4)]
+    sample = fens + small[:24 if ctx["tier"] == "quick" else 300]
     rc, so, se = C.driver(["matefacts"], "".join(f + "\n" for f in sample), timeout=600)
     dfacts = [json.loads(l) for l in so.splitlines() if l.startswith("{")]
-    cvals, lg3 = C.coq_eval_items("c12h", S.HEADER, ["mate_facts %s []" % B.coq_str(f) for f in sample], lambda l: l, nshards=C.NPROC, timeout=1500)
+    # (the Coq facts of the corpus positions were evaluated above: only the extra positions are evaluated here)
+    extra_s = sample[len(fens):]
+    cv2, lg3 = C.coq_eval_items("c12h", S.HEADER, ["mate_facts %s []" % B.coq_str(f) for f in extra_s], lambda l: l, nshards=C.NPROC, timeout=1500)
+    cvals = None if (vals is None or cv2 is None) else list(vals) + list(cv2)
     nval = 0
     if rc != 0 or len(dfacts) != len(sample) or cvals is None:
         rp = C.write_replay(prop, {"broken": "validation of the driver's mate oracle against the Coq oracle could not be evaluated", "log": (se or "")[-800:] + (lg3 or "")[-1200:]})
@@ -134,6 +144,7 @@ def run(ctx):
                 break
     # (d<N>n<budget>: a deep search of the same position cut by a node budget comes first — seeded change r6C12a needs a root entry of
     # depth >= 8 left by an INTERRUPTED search)
+    timing["oracle_validation_s"] = round(_t.time() - _t0, 1); _t0 = _t.time()
     hseqs = "d3;d4;d4,d3;d2,d4,d3;d3,d3;d1,d2,d4,d3;d3,d4;d5,d3;d14n25000,d3;d14n70000,d3,d4" + (";d6,d3;d5,d4,d3;d16n300000,d3" if ctx["tier"] == "thorough" else "")
     # the committed mate corpus additionally with a SWEEP of the budget of the earlier, interrupted search (a geometric grid of 50 node
     # budgets from 1 000 to 300 000, then depth 3): what an interrupted deep search leaves in the cache depends on where it was cut
@@ -206,6 +217,8 @@ def run(ctx):
                                                "replay_cmd": "printf '%s | %s\\n' | %s verif matehunt" % (f, v["seq"], C.ENGINE)})
                     violations.append({"replay": rp})
     hstats["iteration_boundary_cut_sequences"] = hstats_boundary
+    timing["hunt_s"] = round(_t.time() - _t0, 1)
+    stats["timing"] = timing
     stats["hunt"] = hstats
     cov.update(stats)
     cov["evaluations"] = sum(len(c["specs"]) for c in cases) + hstats["positions"]
@@ -213,7 +226,7 @@ def run(ctx):
     cov["rule"] = ("15 sparse positions with a mate in one, a mate in two or an avoidable mate-in-one threat x sequences of searches sharing "
                    "the cache ((3), (4,3), (2,4,3), (3,3), ...): engine vs model (move, score), and the three clauses judged on the engine's "
                    "choices by a mate oracle evaluated in Coq on the model (mating moves; forced mate within 2-3 moves; replies that mate); "
-                   "hunt: 12 000 (quick) / 400 000 (thorough) random sparse positions on the engine alone with the cache ON, each searched in 8-10 sequences "
+                   "hunt: 9 000 (quick) / 400 000 (thorough) random sparse positions on the engine alone with the cache ON, each searched in 8-10 sequences "
                    "sharing the cache, every chosen move judged by a mate oracle over the engine's board API which is compared with the Coq oracle each run; "
                    "every mate SCORE (|score| >= 32000) of every one of these searches confirmed by an exhaustive memoised mate solver (the tie of C12_mate_scores_sound)")
     cov["samples"].append({"fen": fens[0], "sequences": seqs})
